@@ -12,10 +12,13 @@ Proof. unfold count_b64. rewrite filter_app, lenN_app. reflexivity. Qed.
 Lemma count_b64_cons c l : count_b64 (c :: l) = (if base64_char c then 1 else 0) + count_b64 l.
 Proof. unfold count_b64. cbn [filter]. destruct (base64_char c); [rewrite lenN_cons|]; lia. Qed.
 
+Lemma count_b64_nil : count_b64 [] = 0.
+Proof. reflexivity. Qed.
+
 Lemma count_b64_rev l : count_b64 (rev l) = count_b64 l.
 Proof.
-  induction l as [|c l IH]; [reflexivity|]. cbn [rev]. rewrite count_b64_app, IH, count_b64_cons.
-  unfold count_b64 at 2. cbn [filter]. destruct (base64_char c); cbn; lia.
+  induction l as [|c l IH]; [reflexivity|]. cbn [rev].
+  rewrite count_b64_app, IH, (count_b64_cons c []), (count_b64_cons c l), count_b64_nil. lia.
 Qed.
 
 (* walking back over [left] base64 characters of r stops after a prefix of r that holds exactly [left] of them *)
@@ -38,33 +41,55 @@ Lemma takeb_rev_skipn (l : bytes) k : (k <= length l)%nat ->
   takeb (lenN l - N.of_nat k) l = rev (skipn k (rev l)).
 Proof.
   intro H. unfold takeb, lenN. replace (N.to_nat (N.of_nat (length l) - N.of_nat k)) with (length l - k)%nat by lia.
-  rewrite <- (rev_involutive l) at 2. rewrite (firstn_rev (rev l)) by (rewrite rev_length; lia).
-  rewrite rev_length. rewrite rev_involutive. reflexivity.
+  rewrite skipn_rev, rev_involutive. reflexivity.
 Qed.
 
 Definition at_end (p : part) : bool :=
   p_at_eof p || match p_length p with Some l => l <=? p_read_bytes p | None => false end.
 
+Definition align_tail (chunk1 : bytes) (p1 : part) : bytes * part :=
+  let remainder := count_b64 chunk1 mod 4 in
+  if (remainder =? 0) || false then (chunk1, p1) else
+  let cut := lenN chunk1 - walk_back (rev chunk1) remainder 0 in
+  if cut =? 0 then (chunk1, p1)
+  else (takeb cut chunk1, p_set_carry (dropb cut chunk1 ++ p_carry p1) p1).
+
+Lemma align_base64_eq chunk size p :
+  at_end p = false ->
+  align_base64 chunk size p =
+  if size <? lenN chunk then align_tail (takeb size chunk) (p_set_carry (dropb size chunk) p) else align_tail chunk p.
+Proof.
+  intro AE. unfold align_base64. fold (at_end p). rewrite AE. cbn [negb andb].
+  destruct (size <? lenN chunk); reflexivity.
+Qed.
+
+Lemma align_tail_quartets chunk1 p1 c p' :
+  align_tail chunk1 p1 = (c, p') -> 4 <= count_b64 c -> count_b64 c mod 4 = 0.
+Proof.
+  unfold align_tail. cbv zeta. rewrite orb_false_r.
+  destruct (count_b64 chunk1 mod 4 =? 0) eqn:R0.
+  - intro H. inversion H; subst. intros _. apply N.eqb_eq in R0. exact R0.
+  - apply N.eqb_neq in R0.
+    assert (RL : count_b64 chunk1 mod 4 <= count_b64 (rev chunk1)). { rewrite count_b64_rev. lia. }
+    destruct (walk_back_spec (rev chunk1) (count_b64 chunk1 mod 4) 0 RL) as (k & K1 & K2 & K3).
+    rewrite rev_length in K1. rewrite K2. rewrite N.add_0_l.
+    assert (SK : count_b64 (rev (skipn k (rev chunk1))) = count_b64 chunk1 - count_b64 chunk1 mod 4).
+    { rewrite count_b64_rev.
+      assert (E : count_b64 (rev chunk1) = count_b64 (firstn k (rev chunk1)) + count_b64 (skipn k (rev chunk1))).
+      { rewrite <- count_b64_app, firstn_skipn. reflexivity. }
+      rewrite count_b64_rev, K3 in E. lia. }
+    destruct (lenN chunk1 - N.of_nat k =? 0) eqn:C0.
+    + intro H. inversion H; subst. intro G. exfalso.
+      apply N.eqb_eq in C0. assert (k = length c) by (unfold lenN in C0; lia). subst k.
+      rewrite skipn_all2 in SK by (rewrite rev_length; lia). cbn [rev] in SK. rewrite count_b64_nil in SK. lia.
+    + intro H. inversion H; subst. intros _. rewrite (takeb_rev_skipn chunk1 k K1), SK. lia.
+Qed.
+
 Theorem align_base64_quartets chunk size p c p' :
   align_base64 chunk size p = (c, p') -> at_end p = false -> 4 <= count_b64 c -> count_b64 c mod 4 = 0.
 Proof.
-  unfold align_base64. fold (at_end p). intros H AE. rewrite AE in H. cbn [negb andb orb] in H.
-  set (x := if size <? lenN chunk then (takeb size chunk, p_set_carry (dropb size chunk) p) else (chunk, p)) in H.
-  destruct x as [chunk1 p1] eqn:X.
-  destruct (count_b64 chunk1 mod 4 =? 0) eqn:R0.
-  - cbn [orb] in H. inversion H; subst. intros _. apply N.eqb_eq in R0. exact R0.
-  - cbn [orb] in H. apply N.eqb_neq in R0.
-    assert (RL : count_b64 chunk1 mod 4 <= count_b64 (rev chunk1)). { rewrite count_b64_rev. lia. }
-    destruct (walk_back_spec (rev chunk1) (count_b64 chunk1 mod 4) 0 RL) as (k & K1 & K2 & K3).
-    rewrite rev_length in K1. rewrite K2 in H. rewrite N.add_0_l in H.
-    assert (SK : count_b64 (rev (skipn k (rev chunk1))) = count_b64 chunk1 - count_b64 chunk1 mod 4).
-    { rewrite count_b64_rev. rewrite <- (count_b64_rev chunk1) at 1.
-      rewrite <- (firstn_skipn k (rev chunk1)) at 2. rewrite count_b64_app, K3. lia. }
-    destruct (lenN chunk1 - N.of_nat k =? 0) eqn:C0.
-    + inversion H; subst. intro G. exfalso.
-      apply N.eqb_eq in C0. assert (k = length chunk1) by (unfold lenN in C0; lia). subst k.
-      rewrite skipn_all2 in SK by (rewrite rev_length; lia). cbn in SK. unfold count_b64 in SK at 1. cbn in SK. lia.
-    + inversion H; subst. intros _. rewrite (takeb_rev_skipn chunk1 k K1), SK. lia.
+  intros H AE. rewrite (align_base64_eq _ _ _ AE) in H.
+  destruct (size <? lenN chunk); eapply align_tail_quartets; exact H.
 Qed.
 
 (* the refutation: a base64 part whose first stream read returns one content byte *)
